@@ -32,6 +32,9 @@ type c16Case struct {
 	Dep      bool     `json:"deprecated"` // stanza deprecated?
 	Offsets  []string `json:"clock"`      // successive clock readings, relative to epoch (durations)
 	PerApply int      `json:"readings_per_apply"`
+	// FailAt: the wildcard's address / route source fails during this build (0-based;
+	// absent = never). The earlier builds succeeded.
+	FailAt *int `json:"source_fails_at_build,omitempty"`
 }
 
 var c16Epochs = []time.Time{
@@ -114,18 +117,26 @@ func c16Check(c c16Case) [][2]string {
 		reads = append(reads, t)
 		return t
 	}
+	build := 0
+	srcFails := func() bool { return c.FailAt != nil && *c.FailAt == build }
 	var plug plugin.Plugin
 	for _, p := range cfg.Interfaces[0].Plugins {
 		switch p := p.(type) {
 		case *plugin.Prefix:
 			p.TimeNow = clock
 			p.Addrs = func() ([]system.IP, error) {
+				if srcFails() {
+					return nil, fmt.Errorf("verif: netlink dump interrupted")
+				}
 				return []system.IP{{Address: mustPrefix("2001:db8::1/64")}}, nil
 			}
 			plug = p
 		case *plugin.Route:
 			p.TimeNow = clock
 			p.Routes = func() ([]system.Route, error) {
+				if srcFails() {
+					return nil, fmt.Errorf("verif: netlink dump interrupted")
+				}
 				return []system.Route{{Prefix: mustPrefix("2001:db8:ffff::/48")}}, nil
 			}
 			plug = p
@@ -144,6 +155,7 @@ func c16Check(c c16Case) [][2]string {
 	for k := 0; k < napply; k++ {
 		// Position the clock at reading k*PerApply.
 		idx = k * c.PerApply
+		build = k
 		reads = nil
 		ra := &ndp.RouterAdvertisement{}
 		var pv any
@@ -154,6 +166,9 @@ func c16Check(c c16Case) [][2]string {
 		if pv != nil {
 			bad("C16:panic", "Apply panicked: %v", pv)
 			return out
+		}
+		if err != nil && srcFails() {
+			continue // no RA is generated when the source fails: nothing advertised, nothing to judge
 		}
 		if err != nil || len(ra.Options) != 1 {
 			bad("C16:apply", "Apply: err=%v options=%d", err, len(ra.Options))
@@ -216,7 +231,7 @@ func c16Check(c c16Case) [][2]string {
 func TestVerifC16(t *testing.T) {
 	r := ev.Begin("C16", "enum")
 	defer r.End(t)
-	r.Rule = "cases = 2 epochs x 4 (valid,preferred) pairs x {static prefix, wildcard prefix, static route, wildcard route} x {deprecated, not} x all non-decreasing sequences (length<=L) over 10 instants around each deadline (before the epoch, at, 1ns before/after) x {one, two} clock readings per RA; documents parsed by the real config.Parse; non-trivial = deprecated and some reading within [0, 10*valid]; distinct = distinct case"
+	r.Rule = "cases = 2 epochs x 4 (valid,preferred) pairs x {static prefix, wildcard prefix, static route, wildcard route} x {deprecated, not} x all non-decreasing sequences (length<=L) over 10 instants around each deadline (before the epoch, at, 1ns before/after) x {one, two} clock readings per RA x (wildcards) the address / route source failing during build k for every k; documents parsed by the real config.Parse; non-trivial = deprecated and some reading within [0, 10*valid]; distinct = distinct case"
 	r.Assumptions = []string{"clock injected through Prefix.TimeNow / Route.TimeNow (Prepare installs time.Now in production)"}
 
 	if r.Replay != nil {
@@ -257,11 +272,21 @@ func TestVerifC16(t *testing.T) {
 							if per == 2 && len(seq) < 2 {
 								continue
 							}
-							c := c16Case{Epoch: e, Life: li, Kind: kind, Dep: dep, Offsets: offs, PerApply: per}
-							r.Case(ev.JSON(c), dep)
-							r.Sample(c)
-							for _, v := range c16Check(c) {
-								r.Violation(v[0], v[1], c)
+							fails := []*int{nil}
+							if strings.HasSuffix(kind, "-auto") && per == 1 {
+								// The source of a wildcard fails during build k (every k).
+								for k := range seq {
+									k := k
+									fails = append(fails, &k)
+								}
+							}
+							for _, fa := range fails {
+								c := c16Case{Epoch: e, Life: li, Kind: kind, Dep: dep, Offsets: offs, PerApply: per, FailAt: fa}
+								r.Case(ev.JSON(c), dep)
+								r.Sample(c)
+								for _, v := range c16Check(c) {
+									r.Violation(v[0], v[1], c)
+								}
 							}
 						}
 						return true
